@@ -49,6 +49,29 @@ package obfs4
 //@   ensures [C09:grows] len(burst.content) >= L0
 //@   ensures txInv(conn)
 
+//@ func (*obfs4Conn).decodePackets(conn) (err)
+//@   serves C01 C05 C09 C10
+//@   requires rxInv(conn) && distOK(conn)
+//@   modifies conn.receiveBuffer.*, conn.receiveDecodedBuffer.*, conn.decoder.nextLength, conn.decoder.nextLengthInvalid, conn.decoder.nextNonce, conn.decoder.nonce.counter, conn.decoder.drbg.sip.absorbed, conn.decoder.drbg.ofb
+//@   modifies conn.lenDist.values, conn.lenDist.weights, conn.lenDist.alias, conn.lenDist.prob, conn.iatDist.values, conn.iatDist.weights, conn.iatDist.alias, conn.iatDist.prob
+//@   ghost D0 := conn.receiveDecodedBuffer.content
+//@   ghost R0 := conn.receiveBuffer.content
+//@   loop 1 invariant rxInv(conn) && distOK(conn)
+//@   loop 1 invariant [C10:rx_bound] len(conn.receiveBuffer.content) <= len(R0)
+//@   loop 1 invariant [C05:decoded_only_grows] len(conn.receiveDecodedBuffer.content) >= len(D0) && sub(conn.receiveDecodedBuffer.content, 0, len(D0)) == D0
+//@   loop 1 invariant [C10:decoded_bound] len(conn.receiveDecodedBuffer.content) - len(D0) <= len(R0) - len(conn.receiveBuffer.content)
+//@   loop 1 invariant err == nil
+//@   loop 1 decreases len(conn.receiveBuffer.content)
+//@   assert_at bytes.Buffer).Write [C05:validated_before_surface] arg0 == conn.receiveDecodedBuffer && pktType == 0 && err == nil && base(arg1) == &decoded && offset(arg1) == 3 && len(arg1) == payloadLen && payloadLen <= decLen - 3 && payloadLen > 0
+//@   assert_at WeightedDist).Reset [C09:client_adopts_seed] !conn.isServer && pktType == 1 && len(payload) == 24
+//@   ensures [C01:no_stranded_frame] err == nil || err == framing.ErrAgain ==> needMore(conn.decoder, conn.receiveBuffer)
+//@   ensures [C05:errors_surface] err == nil ==> len(conn.receiveBuffer.content) == 0
+//@   ensures [C10:rx_bound] len(conn.receiveBuffer.content) <= len(R0)
+//@   ensures [C05:decoded_only_grows] len(conn.receiveDecodedBuffer.content) >= len(D0) && sub(conn.receiveDecodedBuffer.content, 0, len(D0)) == D0
+//@   ensures [C10:decoded_bound] len(conn.receiveDecodedBuffer.content) - len(D0) <= len(R0) - len(conn.receiveBuffer.content)
+//@   ensures [C01:no_network_io] blocked == old(blocked)
+//@   ensures rxInv(conn) && distOK(conn)
+
 //@ func (*obfs4Conn).readPackets(conn) (err)
 //@   serves C01 C05 C09 C10
 //@   requires rxInv(conn) && distOK(conn)
@@ -58,15 +81,6 @@ package obfs4
 //@   modifies conn.lenDist.values, conn.lenDist.weights, conn.lenDist.alias, conn.lenDist.prob, conn.iatDist.values, conn.iatDist.weights, conn.iatDist.alias, conn.iatDist.prob
 //@   ghost D0 := conn.receiveDecodedBuffer.content
 //@   ghost R0 := conn.receiveBuffer.content
-//@   loop 1 invariant rxInv(conn) && distOK(conn)
-//@   loop 1 invariant [C10:rx_bound] len(conn.receiveBuffer.content) <= len(R0) + 23168
-//@   loop 1 invariant [C05:decoded_only_grows] len(conn.receiveDecodedBuffer.content) >= len(D0) && sub(conn.receiveDecodedBuffer.content, 0, len(D0)) == D0
-//@   loop 1 invariant [C10:decoded_bound] len(conn.receiveDecodedBuffer.content) - len(D0) <= (len(R0) + 23168) - len(conn.receiveBuffer.content)
-//@   loop 1 invariant err == nil
-//@   loop 1 invariant blocked == old(blocked) + 1 && conn.Conn.nreads == old(conn.Conn.nreads) + 1
-//@   loop 1 decreases len(conn.receiveBuffer.content)
-//@   assert_at bytes.Buffer).Write#2 [C05:validated_before_surface] arg0 == conn.receiveDecodedBuffer && pktType == 0 && err == nil && base(arg1) == &decoded && offset(arg1) == 3 && len(arg1) == payloadLen && payloadLen <= decLen - 3 && payloadLen > 0
-//@   assert_at WeightedDist).Reset [C09:client_adopts_seed] !conn.isServer && pktType == 1 && len(payload) == 24
 //@   ensures [C01:no_stranded_frame] err == nil || err == framing.ErrAgain ==> needMore(conn.decoder, conn.receiveBuffer)
 //@   ensures [C05:errors_surface] err == nil ==> len(conn.receiveBuffer.content) == 0
 //@   ensures [C10:rx_bound] len(conn.receiveBuffer.content) <= len(R0) + 23168
@@ -219,19 +233,21 @@ package obfs4
 
 //@ func (*obfs4Conn).clientHandshake(conn, nodeID, peerIdentityKey, sessionKey) (err)
 //@   serves C01 C02 C06 C10
-//@   requires hsConn(conn) && conn.encoder == nil && conn.decoder == nil && len(conn.receiveBuffer.content) == 0
+//@   requires hsConn(conn) && distOK(conn) && conn.encoder == nil && conn.decoder == nil && len(conn.receiveBuffer.content) == 0
 //@   requires nodeID != nil && peerIdentityKey != nil && kpOK(sessionKey) && sessionKey.representative != nil
-//@   modifies conn.encoder, conn.decoder, conn.receiveBuffer.*, conn.Conn.wr, conn.Conn.nwrites, conn.Conn.rd, conn.Conn.nreads, blocked, now
-//@   loop 1 invariant chsInv(hs) && hs.keypair == sessionKey && hsConn(conn) && conn.encoder == nil && conn.decoder == nil && fresh(hs) && fresh(hs.mac)
+//@   modifies conn.encoder, conn.decoder, conn.receiveBuffer.*, conn.receiveDecodedBuffer.*, conn.Conn.wr, conn.Conn.nwrites, conn.Conn.rd, conn.Conn.nreads, blocked, now
+//@   modifies conn.lenDist.values, conn.lenDist.weights, conn.lenDist.alias, conn.lenDist.prob, conn.iatDist.values, conn.iatDist.weights, conn.iatDist.alias, conn.iatDist.prob
+//@   loop 1 invariant distOK(conn) && chsInv(hs) && hs.keypair == sessionKey && hsConn(conn) && conn.encoder == nil && conn.decoder == nil && fresh(hs) && fresh(hs.mac)
 //@   loop 1 invariant 77 <= hs.padLen && hs.padLen <= 8128 && base(hs.serverMark) != &hsBuf && base(hs.epochHour) != &hsBuf
 //@   loop 1 invariant [C10:handshake_rx_bound] len(conn.receiveBuffer.content) < 8192
 //@   assert_at ntor.Kdf [C06:okm_len] arg1 == 144
 //@   assert_at framing.NewEncoder [C06:key_split_client] seq(arg0) == sub(HKDF(seq(seed), T_KEY, M_EXPAND, 0, 144), 0, 72)
 //@   assert_at framing.NewDecoder [C06:key_split_client] seq(arg0) == sub(HKDF(seq(seed), T_KEY, M_EXPAND, 0, 144), 72, 144)
-//@   ensures [C02:keys_only_after_checks] err != nil ==> conn.encoder == nil && conn.decoder == nil
+//@   assert_at framing.NewEncoder [C02:keys_only_after_checks] err == nil && n >= 96 && n <= len(conn.receiveBuffer.content) + n
+//@   ensures [C02:keys_only_after_checks] conn.encoder == nil <==> conn.decoder == nil
 //@   ensures [C02:keys_installed] err == nil ==> conn.encoder != nil && conn.decoder != nil && encInv(conn.encoder) && decInv(conn.decoder) && conn.decoder.nextLength == 0
 //@   ensures [C10:handshake_rx_bound] len(conn.receiveBuffer.content) < 8192 + 8192
-//@   ensures [C01:no_stranded_frame] err == nil ==> needMore(conn.decoder, conn.receiveBuffer)
+//@   ensures [C01:no_stranded_frame] err == nil ==> needMore(conn.decoder, conn.receiveBuffer) && rxInv(conn) && distOK(conn)
 //@   ensures hsConn(conn)
 
 //@ pred sfOK(sf) := sf != nil && sf.nodeID != nil && kpOK(sf.identityKey) && sf.lenSeed != nil && sf.replayFilter != nil && whole(sf.replayFilter) && 0 <= sf.closeDelay && sf.closeDelay < 60 && 0 <= sf.iatMode && sf.iatMode <= 2
